@@ -7,4 +7,10 @@ import MW.Props.C04
 #print axioms MW.Props.C04.submit_no_dilution
 #print axioms MW.Props.C04.unbond_le_total
 #print axioms MW.Props.C04.roundtrip_no_profit
+#print axioms MW.Props.C04.RateLe.refl
+#print axioms MW.Props.C04.execute_rate
+#print axioms MW.Props.C04.runExec_rate
+#print axioms MW.Props.C04.step_rate
+#print axioms MW.Props.C04.RateLe.trans
+#print axioms MW.Props.C04.C04_rate_history
 #print axioms MW.Props.C04.messages_are_the_modelled_ones
